@@ -49,6 +49,10 @@ type verifSumHandler struct {
 	seen      []verifSeen
 	call      []int // handler invocation number of each seen event
 	watermark []*timestamppb.Timestamp
+	// timerAt > 0: every keyed event sets a timer for its key at that time (seconds); an expiry
+	// is recorded in expired and leaves the state entry ("s","fired") for the key
+	timerAt int64
+	expired [][]byte
 }
 
 type verifSeen struct {
@@ -81,7 +85,17 @@ func (h *verifSumHandler) ProcessEventBatch(ctx context.Context, req *handlerpb.
 	resp := &handlerpb.ProcessEventBatchResponse{}
 	cur := map[string][]byte{}
 	var order [][]byte
+	fired := map[string]bool{}
+	var firedOrder [][]byte
 	for _, ev := range req.Events {
+		if te := ev.GetTimerExpired(); te != nil {
+			h.expired = append(h.expired, te.Key)
+			if !fired[string(te.Key)] {
+				fired[string(te.Key)] = true
+				firedOrder = append(firedOrder, te.Key)
+			}
+			continue
+		}
 		ke := ev.GetKeyedEvent()
 		if ke == nil {
 			continue
@@ -102,9 +116,19 @@ func (h *verifSumHandler) ProcessEventBatch(ctx context.Context, req *handlerpb.
 		cur[k] = []byte{old + ke.Value[0]}
 	}
 	for _, key := range order {
-		resp.KeyResults = append(resp.KeyResults, &handlerpb.KeyResult{Key: key, StateMutationNamespaces: []*handlerpb.StateMutationNamespace{{
+		kr := &handlerpb.KeyResult{Key: key, StateMutationNamespaces: []*handlerpb.StateMutationNamespace{{
 			Namespace: "s",
 			Mutations: []*handlerpb.StateMutation{{Mutation: &handlerpb.StateMutation_Put{Put: &handlerpb.PutMutation{Key: []byte("sum"), Value: cur[string(key)]}}}},
+		}}}
+		if h.timerAt > 0 {
+			kr.NewTimers = []*timestamppb.Timestamp{{Seconds: h.timerAt}}
+		}
+		resp.KeyResults = append(resp.KeyResults, kr)
+	}
+	for _, key := range firedOrder {
+		resp.KeyResults = append(resp.KeyResults, &handlerpb.KeyResult{Key: key, StateMutationNamespaces: []*handlerpb.StateMutationNamespace{{
+			Namespace: "s",
+			Mutations: []*handlerpb.StateMutation{{Mutation: &handlerpb.StateMutation_Put{Put: &handlerpb.PutMutation{Key: []byte("fired"), Value: []byte{1}}}}},
 		}}})
 	}
 	return resp, nil
@@ -295,4 +319,19 @@ func indexOfKey(keys [][]byte, k []byte) int {
 		}
 	}
 	return -1
+}
+
+func verifFiredOf(st *KeyedStateStore, key []byte) bool {
+	nss, err := st.GetState(key)
+	if err != nil {
+		panic(err)
+	}
+	for _, ns := range nss {
+		for _, e := range ns.Entries {
+			if ns.Namespace == "s" && bytes.Equal(e.Key, []byte("fired")) {
+				return true
+			}
+		}
+	}
+	return false
 }
